@@ -52,7 +52,7 @@ class SurfaceOracle:
         return oracle.vertex_ring(self.faces, self.he, v)
 
 
-def check_group(sx, mesh, O, group, sorted_mode=True, tag=""):
+def check_group(sx, mesh, O, group, sorted_mode=True, tag="", points_first=False):
     """compare one group of accessors with the oracle; returns False if something raised"""
     conn = mesh.connectivity
     F = O.faces
@@ -77,7 +77,7 @@ def check_group(sx, mesh, O, group, sorted_mode=True, tag=""):
         ok, _ = guarded("vertex ring accessors", lambda: _vertices(sx, mesh, conn, O, sorted_mode, tag))
         return ok
     if group == "border":
-        ok, _ = guarded("border accessors", lambda: _border(sx, mesh, conn, O, tag))
+        ok, _ = guarded("border accessors", lambda: _border(sx, mesh, conn, O, tag, points_first))
         return ok
     if group == "ids":
         ok, _ = guarded("edge/face identifier accessors", lambda: _ids(sx, mesh, conn, O, tag))
@@ -208,8 +208,21 @@ def _vertices(sx, mesh, conn, O, sorted_mode, tag):
         sx.check(bool(good_order), "elements around a vertex come in rotational order, consistently over the mesh" + tag)
 
 
-def _border(sx, mesh, conn, O, tag):
+def _border_points(mesh, O):
     good = True
+    for v in range(O.nv):
+        good &= bool(mesh.is_vertex_on_border(v)) == (v in O.border_vertices)
+        for u in range(O.nv):
+            if u != v:
+                good &= bool(mesh.is_edge_on_border(u, v)) == (oracle.key2(u, v) in O.border_edge_keys)
+    return good
+
+
+def _border(sx, mesh, conn, O, tag, points_first=False):
+    good = True
+    if points_first:
+        # the per-element predicates are asked before the border / interior lists have ever been requested
+        good &= _border_points(mesh, O)
     be = sorted(int(e) for e in mesh.boundary_edges)
     ie = sorted(int(e) for e in mesh.interior_edges)
     want_be = sorted(O.edge_id[k] for k in O.border_edge_keys)
@@ -217,11 +230,7 @@ def _border(sx, mesh, conn, O, tag):
     good &= ie == sorted(set(range(len(O.edges))) - set(want_be))
     good &= sorted(int(v) for v in mesh.boundary_vertices) == sorted(O.border_vertices)
     good &= sorted(int(v) for v in mesh.interior_vertices) == sorted(set(range(O.nv)) - O.border_vertices)
-    for v in range(O.nv):
-        good &= bool(mesh.is_vertex_on_border(v)) == (v in O.border_vertices)
-        for u in range(O.nv):
-            if u != v:
-                good &= bool(mesh.is_edge_on_border(u, v)) == (oracle.key2(u, v) in O.border_edge_keys)
+    good &= _border_points(mesh, O)
     sx.check(bool(good), "border/interior classification of vertices and edges agrees with the face list" + tag)
 
 
@@ -234,15 +243,25 @@ def _ids(sx, mesh, conn, O, tag):
         for v in range(O.nv):
             if u != v:
                 good &= conn.edge_id(u, v) == O.edge_id.get(oracle.key2(u, v))
+    import itertools
     for f, Fv in enumerate(O.faces):
         good &= conn.face_id(*Fv) == f
         good &= conn.face_id(*Fv[::-1]) == f
+        if len(Fv) <= 5:
+            # 'not necessarily in the correct order': every ordering of the face's vertices names the face
+            for perm in itertools.permutations(Fv):
+                good &= conn.face_id(*perm) == f
     sx.check(bool(good), "edge and face identifiers agree with the element lists" + tag)
 
 
-def check_all(sx, mesh, nv, faces, sorted_mode=True, tag="", order=None, declared_edges=(), any_edge_order=False):
+def check_all(sx, mesh, nv, faces, sorted_mode=True, tag="", order=None, declared_edges=(), any_edge_order=False,
+              points_first=None):
     O = SurfaceOracle(nv, faces, declared_edges, mesh_edges=mesh.edges if any_edge_order else None)
-    for g in (order or ACCESSOR_GROUPS):
-        if not check_group(sx, mesh, O, g, sorted_mode, tag):
+    groups = list(order or ACCESSOR_GROUPS)
+    if points_first is None:
+        # when the border group opens the round, its per-element predicates come before its lists (otherwise after them)
+        points_first = groups[0] == "border"
+    for g in groups:
+        if not check_group(sx, mesh, O, g, sorted_mode, tag, points_first):
             return False
     return True
